@@ -75,6 +75,43 @@ def impl_as_spec(line):
     return line
 
 
+def literals(ctx, values):
+    """integer literals through the real parser: every lattice value and its neighbours outside the range, in the four
+    notations and with a sign; in range -> exactly that value in the notation's domain, else rejected"""
+    from . import zwcorr, dwcorr
+    vals = sorted(set(values) | {-H63 - 1, -H63 - 2, M64, M64 + 1, -M64, -M64 + 1, 2 * M64, -(M64 - 1), -(H63 + 1), 10 ** 30, -10 ** 30})
+    progs = []
+    for v in vals:
+        sg = "-" if v < 0 else ""
+        a = abs(v)
+        for dom, txt in (("dec", "%s%d" % (sg, a)), ("hex", "%s0x%x" % (sg, a)), ("hex", "%s0X%X" % (sg, a)), ("oct", "%s0%o" % (sg, a)),
+                         ("bin", "%s0b%s" % (sg, bin(a)[2:]))):
+            if dom == "oct" and a == 0:
+                continue
+            progs.append((txt, dom, v))
+    h = zwcorr.Harness(ctx)
+    recs, crashes = h.run_impl_robust(["Q - %s" % zwcorr.hx(t) for t, _, _ in progs])
+    if crashes:
+        ctx.violation("the parser crashed on an integer literal: %r" % (crashes[:2],), {"stream": "literal", "input": [t for t, _, _ in progs][:5]})
+        return 0
+    bad = 0
+    for (txt, dom, v), r in zip(progs, recs):
+        inrange = -H63 <= v < M64
+        if inrange:
+            got = dwcorr.parse_vals(r.res[0]) if (r.err is None and len(r.res) == 1) else None
+            if got != [("c", dom, v)]:
+                bad += 1
+                ctx.violation("integer literal `%s` (= %d, in range) yields %r%s" % (txt, v, got if got is not None else r.res, " error " + r.err if r.err else ""),
+                              {"stream": "literal", "input": txt, "expected": [dom, v], "got": repr(got), "theorem": "ZwVerif.C08.exact_iff"})
+        elif r.err is None:
+            bad += 1
+            ctx.violation("integer literal `%s` (= %d, outside [-2^63, 2^64-1]) is accepted and yields %r" % (txt, v, r.res[:1]),
+                          {"stream": "literal", "input": txt, "expected": "error", "got": r.res[:1], "theorem": "ZwVerif.C08.exact_iff"})
+        if bad > 10:
+            break
+    return len(progs)
+
+
 def run(ctx):
     proved = ctx.prove("ZwVerif.Props.C08", THEOREMS)
     exe = ctx.harness("intharness", link_lib=True)
@@ -157,7 +194,9 @@ def run(ctx):
                            "correspondence": "intharness vs ZwVerif.Model.Int64"}, found_input=False)
         if mism > 20:
             break
-    ctx.cov["evaluations"] = len(cases)
+    nlit = literals(ctx, sorted(set(den(*a) for a in lat)))
+    ctx.cov["literals_checked"] = nlit
+    ctx.cov["evaluations"] = len(cases) + nlit
     ctx.cov["distinct_nontrivial"] = len(distinct)
     ctx.cov["rule"] = ("boundary lattice (0, ±1, ±2, 2^k, 2^k±1, INT64_MIN/MAX, UINT64_MAX, every non-negative value "
                        "below 2^63 in both representations) × itself × {add,sub,mul,div,mod,6 comparisons} + unary minus, "
